@@ -241,6 +241,30 @@ int vf::engine_main() {
       }
       clear_current();
     }
+    // ---- (4) the shipped StreamReader / StreamWriter as the transport (queue streambufs, single thread): successive calls on one connection
+    if ((args().only_stage.empty() || args().only_stage == "stream") && (args().only_case >= 0 || mine((uint64_t)kv.first + 9))) {
+      std::vector<const MethodRow*> bound; for (auto* m : rows) if (m->bound) bound.push_back(m);
+      int rounds = th ? 40 : 6;
+      for (int rd = 0; rd < rounds && !bound.empty(); rd++) {
+        std::string cd = case_desc(iname, rd, "stream"); set_current("%s", cd.c_str());
+        QueueBuf req, rpl; nop::Status<void> served; bool served_any = false;
+        rpl.on_empty = [&]() { if (req.unread() == 0) return; StServer ss(&req, &rpl); served = first.serve_st(ss); served_any = true; };
+        Rng r = case_rng(iname, (uint64_t)rd, 21); int n = 1 + (int)r.below(10);
+        for (int c = 0; c < n; c++) {
+          const MethodRow& m = *bound[r.below(bound.size())];
+          size_t log0 = hlog().size(); served_any = false;
+          CallResult res; { StClient sc(&req, &rpl); res = m.invoke_st(sc, r); }
+          if (req.unread() && !served_any) rpl.on_empty();           // a void-like reply may not have been awaited
+          rep().count("c14_stream_transport_calls"); rep().note(hash_combine(hash_combine(hash_str(iname), (uint64_t)rd * 131 + (uint64_t)c), hash_str(m.mname)), true);
+          if (hlog().size() - log0 != 1) { rep().violation("C14:stream:handler-invocations", fmt("%s over StreamReader/StreamWriter: %zu handler invocations for one call (call %d of %d)", mname(m).c_str(), hlog().size() - log0, c, n), cd); break; }
+          const LogEntry& e = hlog()[log0];
+          if (e.method != m.method || canon_args(m, e.args) != canon_args(m, res.args)) { rep().violation("C14:stream:wrong-handler-or-arguments", fmt("%s over StreamReader/StreamWriter: the call reached method #%d with other arguments", mname(m).c_str(), e.method), cd); break; }
+          Sch rs = m.ret_schema(); if (!res.ok || canoned(rs, res.ret) != canoned(rs, m.expected_ret(res.args, m.iface, m.method))) { rep().violation("C14:stream:return-value", fmt("%s over StreamReader/StreamWriter: Invoke returned %s instead of the handler's value (call %d of %d)", mname(m).c_str(), res.ok ? "another value" : errname(res.err), c, n), cd); break; }
+          if (req.unread() || rpl.unread()) { rep().violation("C14:stream:out-of-frame", fmt("%s over StreamReader/StreamWriter: %zu request and %zu reply bytes left after the call", mname(m).c_str(), req.unread(), rpl.unread()), cd); break; }
+        }
+        clear_current();
+      }
+    }
     // ---- (3) two threads over a socketpair through FdReader/FdWriter
     if (first.serve_fd == nullptr) rep().count("c14_interfaces_with_table_arguments_(no_fd_transport)");
     if (first.serve_fd != nullptr && (args().only_stage.empty() || args().only_stage == "fd") && (args().only_case >= 0 || mine((uint64_t)kv.first + 5))) {
